@@ -130,7 +130,9 @@ impl<'a> TypingContext<'a> {
     &self,
     identifier: PStr,
   ) -> Option<&NominalType> {
-    self.available_type_parameters.iter().find(|it| it.name == identifier).unwrap().bound.as_ref()
+    // A type parameter of another declaration can get here when a generic class is used without
+    // type arguments (already reported): it has no bound in this scope.
+    self.available_type_parameters.iter().find(|it| it.name == identifier)?.bound.as_ref()
   }
 
   pub(crate) fn nominal_type_upper_bound(&'a self, type_: &'a Type) -> Option<&'a NominalType> {
